@@ -13,12 +13,14 @@ import numpy as np
 
 BOUNDS = (
     "Scenes: 40x48 integer-valued images (3 Gaussian sources, peak <= 200, pedestal 20, rounded noise; all values "
-    "in [1, 250]) with an integer-valued error image (values 36..204, so that err**2 does not fit the narrow integer dtypes) from a sub-seed; quick 1 scene, thorough 3. "
-    "Representations of data/error (21): float32; int64, int32, int16; uint8, uint16, uint64; big-endian >f8, >f4, "
+    "in [1, 250]) with an integer-valued error image (values 39..221, so that err**2 does not fit the narrow integer dtypes) from a sub-seed; quick 1 scene, thorough 6. "
+    "Representations (37): of the data (the error array stays float64) float32; int64, int32, int16; uint8, uint16, uint64; big-endian >f8, >f4, "
     ">i2; Fortran order; strided views ([::2, ::2] of a 2x inflated array, negative strides, column slice of a "
     "wider array); MaskedArray with nomask and with an all-False mask array; NDData and NDData with unit (only for "
     "the entry points documented to accept NDData: aperture_photometry, ApertureStats, Background2D, PSFPhotometry); "
-    "Quantity (Jy) float64 and float32; thresholds/scalars carry the unit when the data do. "
+    "Quantity (Jy) float64 and float32 (data and error; thresholds/scalars carry the unit when the data do); "
+    "NDData holding int16 / float32 arrays; and of the error array only (data float64): float32, int64, int16, uint8, "
+    "uint16, >f8, >i2, Fortran order, strided, MaskedArray (evaluated only for entry points that take an error). "
     "Entry points (30 configurations): aperture_photometry (exact, center), ApertureStats (plain, sigma_clip+local "
     "background), find_peaks (plain, centroid_func), DAOStarFinder, IRAFStarFinder, StarFinder (data "
     "representation; kernel representation), detect_sources, deblend_sources, SourceCatalog (plain; "
@@ -34,7 +36,7 @@ BOUNDS = (
     "other check on the values. "
     "Units: with Quantity (Jy) data every flux-like output must be a Quantity in Jy, variance-like in Jy**2, "
     "positions/shape parameters unit-less (or pix/deg as for plain input); values equal to the unit-less run. "
-    "Unit mixes (18 calls): data with unit + error/threshold/background/local_bkg without (and vice versa) must raise."
+    "Unit mixes (39 calls): data with unit + error/threshold/background/local_bkg without (and vice versa) must raise."
 )
 RULE = (
     "A case is one (entry-point configuration, representation, scene) evaluation compared output-by-output with the "
@@ -62,7 +64,7 @@ class Scene:
                + 90 * np.exp(-((xx - self.src[2, 0]) ** 2 + (yy - self.src[2, 1]) ** 2) / 9.0)
                + rng.normal(20, 2, xx.shape))
         self.base = np.clip(np.round(img), 1, 250).astype(np.int64)
-        self.err = ((np.round(np.sqrt(self.base)) + 1) * 12).astype(np.int64)     # 36..204: err**2 overflows (u)int8/16
+        self.err = ((np.round(np.sqrt(self.base)) + 1) * 13).astype(np.int64)     # 39..221: err**2 overflows (u)int8/int16
         self.mask = np.zeros((NY, NX), bool)
         self.mask[rng.integers(0, NY, 6), rng.integers(0, NX, 6)] = True
         self.bkg = np.full((NY, NX), 20, np.int64)
@@ -135,8 +137,12 @@ class Rep:
         return pre + g
 
     def e(self, arr):
-        """The error array (same representation as the data unless this is an error-only representation)."""
-        return self.a(arr)
+        """The error array.  Data representations leave the error in plain float64 (so that a failure is
+        attributable to the data or to the error representation); the unit-ful ones must give it the same unit;
+        the 'err_*' representations convert only the error."""
+        if self.has_unit:
+            return self.a(arr)
+        return np.ascontiguousarray(arr).astype('f8')
 
     def s(self, v):
         """Scalar (threshold, local background) - carries the unit when the data do."""
@@ -188,17 +194,21 @@ REPS = [
     Rep('nddata_i2', 'nddata-int', _mk('i2'), nddata=True),
     Rep('nddata_f4', 'nddata-float32', _mk('f4'), nddata=True),
     ErrRep('err_f4', 'error-float32', _mk('f4')),
+    ErrRep('err_i8', 'error-int', _mk('i8')),
     ErrRep('err_i2', 'error-int', _mk('i2')),
     ErrRep('err_u1', 'error-uint', _mk('u1')),
+    ErrRep('err_u2', 'error-uint', _mk('u2')),
     ErrRep('err_>f8', 'error-bigendian', _mk('>f8')),
+    ErrRep('err_>i2', 'error-bigendian-int', _mk('>i2')),
     ErrRep('err_F', 'error-fortran', lambda a: np.asfortranarray(a.astype('f8'))),
+    ErrRep('err_strided', 'error-strided', lambda a: _strided(a.astype('f8'))),
     ErrRep('err_ma', 'error-masked', lambda a: np.ma.MaskedArray(a.astype('f8'))),
 ]
 REPMAP = {r.name: r for r in REPS}
 F32 = ('float32', 'bigendian-float32', 'quantity-float32', 'nddata-float32', 'error-float32')
 INTS = ('int', 'uint', 'bigendian-int', 'nddata-int')
 USES_ERROR = ('aperture_photometry', 'ApertureStats', 'find_peaks:centroid', 'SourceCatalog:full', 'RadialProfile',
-              'CurveOfGrowth', 'centroid_1dg', 'centroid_2dg', 'PSFPhotometry', 'detect_threshold', 'fit_2dgaussian',
+              'CurveOfGrowth', 'centroid_1dg', 'centroid_2dg', 'PSFPhotometry', 'detect_threshold:full', 'fit_2dgaussian:fwhm',
               'calc_total_error', 'IterativePSFPhotometry')
 
 
@@ -321,7 +331,7 @@ def _nd(sc, rep, with_err=True, mask=None, data=None):
     from astropy.nddata import NDData, StdDevUncertainty
     kw = {}
     if with_err:
-        kw['uncertainty'] = StdDevUncertainty(rep.raw(sc.err))
+        kw['uncertainty'] = StdDevUncertainty(sc.err.astype(float))
     if rep.has_unit:
         kw['unit'] = rep.unit
     if mask is not None:
@@ -841,8 +851,10 @@ def unit_mixes(sc):
     from photutils.centroids import centroid_1dg, centroid_2dg
     from photutils.detection import DAOStarFinder, IRAFStarFinder, StarFinder, find_peaks
     from photutils.profiles import CurveOfGrowth, RadialProfile
-    from photutils.psf import CircularGaussianPRF, PSFPhotometry
-    from photutils.segmentation import SegmentationImage, SourceCatalog, detect_sources
+    from photutils.psf import CircularGaussianPRF, PSFPhotometry, fit_fwhm
+    from photutils.segmentation import (SegmentationImage, SourceCatalog, SourceFinder, detect_sources,
+                                        detect_threshold)
+    from photutils.utils import calc_total_error
     from astropy.table import QTable
     d = sc.base.astype(float)
     e = sc.err.astype(float)
@@ -891,6 +903,19 @@ def unit_mixes(sc):
         ('centroid_2dg', 'data-unit+error-none', lambda: centroid_2dg(dq[cut], error=e[cut])),
         ('PSFPhotometry', 'data-unit+error-none', lambda: psf(dq, e)),
         ('PSFPhotometry', 'data-none+error-unit', lambda: psf(d, eq)),
+        ('detect_threshold', 'data-unit+error-none', lambda: detect_threshold(dq, 2.0, error=e)),
+        ('detect_threshold', 'data-unit+background-none', lambda: detect_threshold(dq, 2.0, background=bkg)),
+        ('detect_threshold', 'data-none+error-unit', lambda: detect_threshold(d, 2.0, error=eq)),
+        ('SourceFinder', 'data-unit+threshold-none', lambda: SourceFinder(5, progress_bar=False)(dq, 24.0)),
+        ('SourceFinder', 'data-none+threshold-unit', lambda: SourceFinder(5, progress_bar=False)(d, 24.0 * u.Jy)),
+        ('calc_total_error', 'data-unit+bkg_error-none+gain-unit',
+         lambda: calc_total_error(d * u.electron / u.s, e, 4.0 * u.s)),
+        ('calc_total_error', 'data-unit+bkg_error-unit+gain-none',
+         lambda: calc_total_error(d * u.electron / u.s, e * u.electron / u.s, 4.0)),
+        ('calc_total_error', 'data-none+bkg_error-unit+gain-none',
+         lambda: calc_total_error(d, e * u.electron / u.s, 4.0)),
+        ('fit_fwhm', 'data-unit+error-none', lambda: fit_fwhm(dq - 20 * u.Jy, xypos=sc.src[:2], fit_shape=7, error=e)),
+        ('fit_fwhm', 'data-none+error-unit', lambda: fit_fwhm(d - 20, xypos=sc.src[:2], fit_shape=7, error=eq)),
     ]
 
 
@@ -910,7 +935,7 @@ def eval_mix(sc, entry, which):
 
 
 def run(ctx):
-    nscenes = 3 if ctx.thorough else 1
+    nscenes = 6 if ctx.thorough else 1
     for _ in range(nscenes):
         sub = int(ctx.rng.integers(0, 2 ** 31 - 1))
         sc = Scene(sub)
